@@ -76,3 +76,50 @@ theorem stable_derive {rs : List GRule} {T : Interp} (hs : Stable rs T) (r : GRu
   simpa [GRule.sat, GRule.headHolds, hh, hc, hb] using this
 
 end TelProofs
+
+namespace TelProofs
+open TelModel
+
+/-- **supportedness**: a true atom of a stable model is in the head of a rule whose body is true -/
+theorem stable_supported_body {rs : List GRule} {T : Interp} (hs : Stable rs T) (a : GAtom) (ha : T a = true) :
+    ∃ r ∈ rs, a ∈ r.head ∧ r.bodyHolds T T = true := by
+  apply Classical.byContradiction; intro hcon
+  let H : Interp := fun x => T x && !(x == a)
+  have hle : H.le T := by
+    intro x hx; simp only [H, Bool.and_eq_true] at hx; exact hx.1
+  have hH : ∀ x, x ≠ a → H x = T x := by
+    intro x hx
+    have : (x == a) = false := by
+      cases h : x == a
+      · rfl
+      · exact absurd (beq_iff_eq.mp h) hx
+    simp [H, this]
+  have hsat : ∀ r ∈ rs, r.sat H T = true := by
+    intro r hr
+    have hT := hs.1 r hr
+    simp only [GRule.sat, Bool.or_eq_true, Bool.not_eq_true'] at hT ⊢
+    cases hb : r.bodyHolds H T
+    · exact Or.inl rfl
+    · right
+      have hbT := body_mono hle hb
+      have hna : a ∉ r.head := fun hmem => hcon ⟨r, hr, hmem, hbT⟩
+      rcases hT with hT | hT
+      · rw [hbT] at hT; cases hT
+      · by_cases hc : r.choice = true
+        · simp only [GRule.headHolds, hc, if_true, List.all_eq_true, Bool.or_eq_true, Bool.not_eq_true'] at hT ⊢
+          intro x hx
+          have hxa : x ≠ a := fun h => hna (h ▸ hx)
+          rw [hH x hxa]
+          exact hT x hx
+        · have hc' : r.choice = false := by
+            cases h : r.choice
+            · rfl
+            · exact absurd h hc
+          simp only [GRule.headHolds, hc', Bool.false_eq_true, if_false, List.any_eq_true] at hT ⊢
+          obtain ⟨x, hx, hTx⟩ := hT
+          have hxa : x ≠ a := fun h => hna (h ▸ hx)
+          exact ⟨x, hx, by rw [hH x hxa]; exact hTx⟩
+  have := hs.2 H hle hsat a
+  simp [H, ha] at this
+
+end TelProofs
